@@ -305,6 +305,10 @@ class Registry:
                 if ctx.branch(sym.truth(g)):
                     raise PyRaise(exc("raised per contract of %s" % c.short))
         res = self.fresh_result(interp, c, env)
+        if getattr(ctx, "bound_depth", 0) > 0:
+            # under a binder: the instance would mention bound variables; rely on the quantified contract axiom
+            self.ensure_axiom(interp, c)
+            return res
         env2 = dict(env)
         env2["result"] = res
         for e in c.ensures:
@@ -339,14 +343,52 @@ class Registry:
                 if ctx.branch(sym.truth(some)):
                     raise PyRaise(exc("raised per contract of %s" % c.short))
         memo = {}
+        self.ensure_axiom(interp, c)
 
         def fn(*idx):
-            key = tuple(str(sym.lift(i)) for i in idx)
+            key = tuple(str(sym.lift(i)) for i in idx) + (getattr(ctx, "bound_depth", 0) > 0,)
             if key not in memo:
                 envi = {n: sym.index_into(v, idx, nd) for n, v in env.items()}
                 memo[key] = self._apply_scalar(interp, c, envi, caller, check_pre=False)
             return memo[key]
         return SArr(shape, fn, "real")
+
+    def ensure_axiom(self, interp, c):
+        """forall xs. requires(xs) => ensures(F(xs), xs): the contract of a pure scalar function as a
+        quantified fact about its uninterpreted symbol (needed when applications occur under binders)"""
+        ctx = interp.ctx
+        done = ctx.ghost.setdefault("axioms_added", set())
+        if c.label in done or not c.pure or c.result not in ("real", "int", "bool"):
+            return
+        sig = inspect.signature(c.fn_inner)
+        names = [n for n in sig.parameters]
+        if c.params is not None and any(not isinstance(c.params.get(n, "real"), str) for n in names):
+            return
+        done.add(c.label)
+        xs = [z3.Real(ctx.fresh_name("cx_%s" % n)) for n in names]
+        env = {n: Sym(x) for n, x in zip(names, xs)}
+        if c.uf is None or c.uf.arity() != len(xs):
+            c.uf = z3.Function("F_" + c.short.replace(".", "_"), *([z3.RealSort()] * len(xs) + [_SORTS[c.result]]))
+        res = Sym(c.uf(*xs))
+        saved = ctx.pc
+        ctx.pc = []
+        ctx.spec_mode += 1
+        ctx.bound_depth = getattr(ctx, "bound_depth", 0) + 1
+        try:
+            pre = [sym.truth(self.eval_clause(interp, r, c, env)) for r in c.requires]
+            pre += [z3.Not(sym.truth(self.eval_clause(interp, cond, c, env))) for cond, _ in c.raises]
+            env2 = dict(env)
+            env2["result"] = res
+            post = [sym.truth(self.eval_clause(interp, e, c, env2)) for e in c.ensures]
+            side = ctx.pc
+        finally:
+            ctx.pc = saved
+            ctx.spec_mode -= 1
+            ctx.bound_depth -= 1
+        body = z3.Implies(z3.And(pre) if pre else z3.BoolVal(True), z3.And(side + post) if (side + post) else z3.BoolVal(True))
+        from . import solve
+        inst = solve.analytic_instances([body])
+        ctx.assume(z3.ForAll(xs, z3.And(inst + [body]) if inst else body))
 
     def fresh_result(self, interp, c, env):
         ctx = interp.ctx
